@@ -58,6 +58,13 @@ def build_opspecs(texts: list[str]) -> list[dict]:
     for t in pool.KEYWORD_NAMES + [c for c in pool.CARRIERS if c.startswith(("try:", "type ", "def f[", "match ", "with (", "x = (y", "def f(a, /"))]:
         for pv in pool.PY_VERSIONS:
             specs.append({"op": "parse_string", "text": t, "mode": "exec", "py_version": pv})
+    # the same calls in a process run with -W error::SyntaxWarning (texts whose literals may make the evaluator warn,
+    # and a sample of others)
+    for j, t in enumerate(texts):
+        if "\\" in t or j % 23 == 0:
+            specs.append({"op": "parse_string", "text": t, "mode": "exec", "warn": True})
+            if j % 3 == 0:
+                specs.append({"op": "parse_file", "text": t, "warn": True})
     for t in pool.DEEP:
         specs.append({"op": "parse_string", "text": t, "mode": "exec"})
         specs.append({"op": "parse_file", "text": t})
@@ -77,14 +84,20 @@ def build_opspecs(texts: list[str]) -> list[dict]:
 
 
 class Workload:
-    def __init__(self, specs: list[dict]):
+    def __init__(self, specs: list[dict], golden: dict | None = None):
+        golden = golden or {}
+        # calls that really do end in a SyntaxWarning-turned-error in a fresh process
+        self.warners = [s for s in specs if s.get("warn")
+                        and (golden.get(worlda.op_key(s)) or ("",))[:2] == ("exc", "SyntaxWarning")]
         self.big = [s for s in specs if s.get("big")]
-        specs = [s for s in specs if not s.get("big")]
+        self.warnish = [s for s in specs if s.get("warn")]
+        specs = [s for s in specs if not s.get("big") and not s.get("warn")]
         self.specs = specs
         self.small = [s for s in specs if len(s["text"]) <= 60]
         self.pairs = pool.PREFIX_SHARING + pool.ALIASING
         self.carriers = [s for s in specs if s["text"] in set(pool.CARRIERS)]
         self.versioned = [s for s in specs if s.get("py_version") and s["text"] in set(pool.KEYWORD_NAMES)]
+        self.keywordish = [s for s in specs if not s.get("py_version") and s["text"] in set(pool.KEYWORD_NAMES)]
         self.deep = [s for s in specs if s["text"] in set(pool.DEEP)]
         self.by_len: dict[int, list[dict]] = {}
         for s in specs:
@@ -95,6 +108,8 @@ class Workload:
         r = rng.random()
         if r < 0.05 and self.versioned:
             return dict(rng.choice(self.versioned))
+        if 0.07 <= r < 0.11 and self.keywordish:
+            return dict(rng.choice(self.keywordish))
         if r < 0.07 and self.deep:
             return dict(rng.choice(self.deep))
         if r < 0.25 and self.carriers:
@@ -103,7 +118,7 @@ class Workload:
             return dict(rng.choice(self.small))
         return dict(rng.choice(self.specs))
 
-    def _assign_slots(self, rng, script: list[dict], prefix: str) -> list[dict]:
+    def _assign_slots(self, rng, script: list[dict], prefix: str, replace: bool = True) -> list[dict]:
         """parse_file ops overwrite one of two per-client slots in place; sometimes the next file has the same size
         as the one it replaces and the clock does not advance (pinned mtime)."""
         out = []
@@ -114,7 +129,7 @@ class Workload:
                 op = dict(op)
                 slot = rng.randrange(2)
                 prev = last.get(slot)
-                if prev is not None and rng.random() < 0.5:
+                if prev is not None and replace and rng.random() < 0.5:
                     same = [s for s in self.by_len.get(len(prev["text"].encode()), []) if s["text"] != prev["text"]]
                     if same:
                         repl = dict(rng.choice(same))
@@ -160,6 +175,14 @@ class Workload:
                 out.append(op)
             else:
                 out.append(op)
+        # a fault inside the very first call of the process: no un-faulted copy runs before it, the instant is an
+        # absolute early step (first-use initialisation is only ever executed there)
+        if out and "text" in out[0] and not out[0].get("fault") and out[0]["op"] in ("parse_string", "parse_file") \
+                and rng.random() < p_abort * 1.5:
+            first = dict(out[0])
+            first["fault"] = {"kind": "abort", "exc": rng.choice(["KeyboardInterrupt", "MemoryError"]),
+                              "at_step": rng.randrange(1, 140), "biased": rng.random() < 0.5}
+            out.insert(0, first)
         for n, op in enumerate(out):
             op["id"] = n
         if rng.random() < p_mutate and len(out) >= 2:
@@ -182,6 +205,13 @@ class Workload:
         n = rng.choice([2, 2, 2, 3, 3, 4])
         scripts: list[list[dict]] = [[] for _ in range(n)]
         family = rng.choice(["pair", "pair", "same", "pool", "pool", "carrier"])
+        warn_run = rng.random() < 0.06 and bool(self.warnish)
+        if warn_run:
+            family = "warn"
+            for k in range(n):
+                scripts[k] = [dict(rng.choice(self.warnish)) for _ in range(rng.randrange(2, 5))]
+                if self.warners:
+                    scripts[k].append(dict(rng.choice(self.warners)))  # a call whose outcome depends on the filters
         if family == "pair":
             a, b = rng.choice(self.pairs)
             order = list(range(n))
@@ -196,13 +226,13 @@ class Workload:
             for k in range(n):
                 scripts[k].append(dict(rng.choice(self.carriers)))
         for k in range(n):
-            want = rng.randrange(1, 5)
+            want = 0 if warn_run else rng.randrange(1, 5)
             while len(scripts[k]) < want:
                 scripts[k].append(self.pick(rng))
             rng.shuffle(scripts[k])
             if rng.random() < 0.02:
                 scripts[k].insert(rng.randrange(len(scripts[k]) + 1), {"op": "flood", "n": 40, "tag": f"s{i}_{k}"})
-            scripts[k] = self._assign_slots(rng, scripts[k], f"t{k}_")
+            scripts[k] = self._assign_slots(rng, scripts[k], f"t{k}_", replace=not warn_run)
             scripts[k] = self._add_faults(rng, scripts[k], 0.12, 0.06, 0.15)
         est = sum(20000 + 3000 * len(op.get("text", "")) + 12000 * op.get("n", 0) for s in scripts for op in s)
         # a slice of the runs pre-empts at bytecode granularity (about 5x the events per line)
@@ -213,6 +243,8 @@ class Workload:
         return {
             "engine": "schedule",
             "run": i,
+            "warn_errors": warn_run,
+            "policy_hint": "uniform-hot" if warn_run and rng.random() < 0.7 else None,
             "granularity": gran,
             "threads": scripts,
             "seed_parts": [SEED, PROP, "sched", i],
@@ -246,14 +278,22 @@ class Workload:
 
             else:
                 script.append(self.pick(rng, small_bias=0.55))
-        if rng.random() < 0.04:
+        if rng.random() < 0.025:
+            # sized against the usual cache capacities (128 ... 8192); every flood text holds two new string literals
             script.insert(rng.randrange(len(script) // 2 + 1),
-                          {"op": "flood", "n": rng.choice([300, 1200, 3000, 5000]), "tag": f"h{i}"})
+                          {"op": "flood", "n": rng.choice([500, 2500, 6000, 12000]), "tag": f"h{i}"})
         n_faults = rng.choice([0, 1, 1, 2, 3, 4])
         p = n_faults / max(1, len(script))
-        script = self._assign_slots(rng, script, "h")
+        warn_run = rng.random() < 0.05 and bool(self.warnish) and not long_history
+        if warn_run:
+            script = [dict(rng.choice(self.warnish)) for _ in range(len([o for o in script if "text" in o]))]
+        script = self._assign_slots(rng, script, "h", replace=not warn_run)
         ops = self._add_faults(rng, script, p * 0.6, p * 0.25, 0.3, recursion=n_faults > 0)
-        return {"engine": "history", "run": i, "ops": ops}
+        if warn_run:
+            for op in ops:
+                if "text" in op:
+                    op["warn"] = True
+        return {"engine": "history", "run": i, "ops": ops, "warn_errors": warn_run}
 
 
 # ----------------------------------------------------------------------------------------------
@@ -315,17 +355,19 @@ def judge(res: dict, golden: dict[str, tuple]) -> list[dict]:
 def trace_of(task: dict, res: dict) -> dict:
     if task["engine"] == "schedule":
         return {"engine": "schedule", "threads": res["threads"], "schedule": res["segments"],
-                "cap": task.get("cap"), "granularity": res.get("granularity", task.get("granularity", "line"))}
-    return {"engine": "history", "ops": res["ops"]}
+                "cap": task.get("cap"), "granularity": res.get("granularity", task.get("granularity", "line")),
+                "warn_errors": bool(task.get("warn_errors"))}
+    return {"engine": "history", "ops": res["ops"], "warn_errors": bool(task.get("warn_errors"))}
 
 
 def run_trace(trace: dict, wall: float = 300.0):
     if trace["engine"] == "schedule":
         task = {"threads": copy.deepcopy(trace["threads"]), "schedule": trace.get("schedule") or [],
-                "cap": trace.get("cap") or 50_000_000, "wall": wall, "granularity": trace.get("granularity", "line")}
-        return kernel.run_in_child(worlda.run_schedule_task, task, wall + 30)
-    task = {"ops": copy.deepcopy(trace["ops"])}
-    return kernel.run_in_child(worlda.run_history_task, task, wall + 30)
+                "cap": trace.get("cap") or 50_000_000, "wall": wall, "granularity": trace.get("granularity", "line"),
+                "engine": "schedule", "run": -1, "warn_errors": bool(trace.get("warn_errors"))}
+        return kernel.run_in_child(_run_one, task, wall + 30)
+    task = {"ops": copy.deepcopy(trace["ops"]), "engine": "history", "run": -1, "warn_errors": bool(trace.get("warn_errors"))}
+    return kernel.run_in_child(_run_one, task, wall + 30)
 
 
 def trace_size(trace: dict) -> int:
@@ -373,12 +415,16 @@ def _ddmin_list(items: list, test, budget: list[int]) -> list:
     return items
 
 
-def minimise(trace: dict, golden, key: str, max_candidates: int) -> tuple[dict, int]:
+def minimise(trace: dict, golden, key: str, max_candidates: int, seconds: float = 120.0) -> tuple[dict, int]:
     budget = [max_candidates]
     used0 = budget[0]
     trace = copy.deepcopy(trace)
+    deadline = time.monotonic() + seconds
 
     def ok(t):
+        if time.monotonic() > deadline:
+            budget[0] = 0  # a trace with a 12 000-call flood costs 15 s per candidate: stop, keep what we have
+            return False
         return reproduces(t, golden, key) is not None
 
     if trace["engine"] == "history":
@@ -443,6 +489,14 @@ def minimise(trace: dict, golden, key: str, max_candidates: int) -> tuple[dict, 
 
 
 def _run_one(task: dict) -> dict:
+    if task.get("warn_errors"):
+        import warnings
+
+        warnings.simplefilter("error", SyntaxWarning)  # the process was started with -W error::SyntaxWarning
+    else:
+        import warnings
+
+        warnings.simplefilter("ignore", SyntaxWarning)  # keep the literal evaluator's warnings off the log
     sys.unraisablehook = id  # a no-op that needs no Python frame (generators finalised at the recursion limit)
     if task["engine"] == "schedule":
         res = worlda.run_schedule_task(task)
@@ -490,7 +544,7 @@ def check(tier: str) -> int:
     if hung:
         print(f"{len(hung)} ops do not terminate on their own in a fresh interpreter; excluded (see C03)")
     specs = [s for s in specs if worlda.op_key(s) not in hung]
-    wl = Workload(specs)
+    wl = Workload(specs, golden)
     tasks = [wl.schedule_task(i, tier) for i in range(cfg["sched"])]
     tasks += [wl.history_task(i, tier) for i in range(cfg["hist"])]
     print(f"golden table: {len(golden)} ops from fresh interpreters x 2 hash seeds in {golden_s:.1f}s; "
@@ -522,11 +576,15 @@ def check(tier: str) -> int:
                 again.append(idx)
                 continue
             yield idx, (status, res)
-        for idx in again:
+        for n_again, idx in enumerate(again):
+            if n_again >= 3:
+                # more than a handful of time-outs is not "a loaded machine": report, do not spend hours repeating
+                yield idx, ("harness-timeout", "fell to the wall-clock guard (not repeated: too many such runs)")
+                continue
             stats["retried_after_timeout"] += 1
             t2 = copy.deepcopy(tasks[idx])
-            t2["wall"] = 2400.0
-            yield idx, kernel.run_in_child(_run_one, t2, 2500.0)
+            t2["wall"] = 1200.0
+            yield idx, kernel.run_in_child(_run_one, t2, 1300.0)
 
     for idx, (status, res) in results():
         task = tasks[idx]
@@ -610,6 +668,10 @@ def check(tier: str) -> int:
             report.add(v["key"], {"size": size, "summary": {"engine": task["engine"], "run": task["run"],
                                                           "violation": _brief(v)}})
     run_s = time.monotonic() - tr
+    if report.violations:
+        print(f"runs done in {run_s:.0f}s; {len(report.violations)} unlisted violation classes; minimising up to "
+              f"{cfg['min_classes']} of them")
+        sys.stdout.flush()
 
     # minimise + confirm each distinct unknown violation class
     minimised = {}
@@ -627,7 +689,8 @@ def check(tier: str) -> int:
                            f"literal trace (non-determinism in the harness or in the system under test)")
             minimised[key] = (trace, v, 0, task)
             continue
-        small, used = minimise(trace, golden, key, cfg["min_candidates"])
+        small, used = minimise(trace, golden, key, cfg["min_candidates"],
+                               max(20.0, cfg["min_seconds"] - (time.monotonic() - tm)))
         v2 = reproduces(small, golden, key) or first
         minimised[key] = (small, v2, used, task)
 
@@ -808,7 +871,7 @@ def replay(path: str) -> int:
         print("REPRODUCED" if not same else "NOT-REPRODUCED", key)
         return 1 if not same else 0
     worlda.init_world()
-    trace = {k: data[k] for k in ("engine", "threads", "schedule", "ops", "cap", "granularity") if k in data}
+    trace = {k: data[k] for k in ("engine", "threads", "schedule", "ops", "cap", "granularity", "warn_errors") if k in data}
     ops = ops_of_task(trace)
     golden, _ = golden_for(ops)
     v = reproduces(trace, golden, key)
